@@ -117,29 +117,32 @@ def mapR {α β} (f : α → R β) : List α → R (List β)
       | .error e => .error e
       | .ok ys => .ok (y :: ys)
 
+/-- one step of the rebuild loop of `MergeDuplicateGates._transform` -/
+def mdgStep (c : Circuit) (acc : R MdgSt) (l : Label) : R MdgSt :=
+  match acc with
+  | .error e => .error e
+  | .ok st => match c.find? l with
+    | none => .error "GateDoesntExistError"
+    | some g =>
+      if g.ty = INPUT then
+        match st.n.addInputs [g.label] with
+        | .error e => .error e
+        | .ok n' => .ok ⟨n', st.sigs⟩
+      else match mapR (mdgNewName st) g.ops with
+        | .error e => .error e
+        | .ok ops =>
+          let sig := signature g.ty ops
+          let sigs' := if (st.sigs.lookup sig).isSome then st.sigs else st.sigs ++ [(sig, g.label)]
+          match st.n.addGate ⟨g.label, g.ty, ops⟩ with
+          | .error e => .error e
+          | .ok n' => .ok ⟨n', sigs'⟩
+
 /-- `MergeDuplicateGates._transform` -/
 def mdg (c : Circuit) : R Circuit :=
   match traverse c false false (some c.outputs) true with
   | .error e => .error e
   | .ok log =>
-    let step : R MdgSt → Label → R MdgSt := fun acc l => match acc with
-      | .error e => .error e
-      | .ok st => match c.find? l with
-        | none => .error "GateDoesntExistError"
-        | some g =>
-          if g.ty = INPUT then
-            match st.n.addInputs [g.label] with
-            | .error e => .error e
-            | .ok n' => .ok ⟨n', st.sigs⟩
-          else match mapR (mdgNewName st) g.ops with
-            | .error e => .error e
-            | .ok ops =>
-              let sig := signature g.ty ops
-              let sigs' := if (st.sigs.lookup sig).isSome then st.sigs else st.sigs ++ [(sig, g.label)]
-              match st.n.addGate ⟨g.label, g.ty, ops⟩ with
-              | .error e => .error e
-              | .ok n' => .ok ⟨n', sigs'⟩
-    match (hookLabels log true).foldl step (.ok ⟨Circuit.empty, []⟩) with
+    match (hookLabels log true).foldl (mdgStep c) (.ok ⟨Circuit.empty, []⟩) with
     | .error e => .error e
     | .ok st => match st.n.setInputs c.inputs with
       | .error e => .error e
